@@ -27,6 +27,7 @@ extern "C" int __lsan_do_recoverable_leak_check();
 // 14 justify      u16 seg_idx u16 start_pos i16 font_idx f64 width u8 flags i16 first_pos i16 last_pos -> {"w":..,"lines":..}
 // 15 linebreak    u16 seg_idx u16 pos
 // 16 dump_seg     u16 seg_idx                                                           -> dump (+invariants) of a kept segment
+// 17 label_by_id  u32 feature id, i16 setting(-1 = feature label) u16 lang u8 enc         -> label json (via gr_face_find_fref)
 struct HSeg { gr_segment *seg = nullptr; std::vector<const gr_slot *> order; std::vector<size_t> line_starts; const gr_font *font = nullptr; };
 
 inline std::string line_state(HSeg &hs) {
@@ -109,6 +110,15 @@ inline std::string cmd_history(Reader &rd, std::map<uint32_t, std::vector<uint8_
             case 10: {
                 unsigned fi = rd.u16(); int setting = int16_t(rd.u16()); uint16_t lang = rd.u16(); int enc = rd.u8();
                 const gr_feature_ref *fr = gr_face_fref(face, uint16_t(fi));
+                if (!fr || (enc != 1 && enc != 2 && enc != 4)) { emit("null"); break; }
+                uint32_t len = 0; uint16_t l = lang;
+                void *lbl = setting < 0 ? gr_fref_label(fr, &l, gr_encform(enc), &len) : gr_fref_value_label(fr, uint16_t(setting), &l, gr_encform(enc), &len);
+                emit("{\"lang\":" + std::to_string(l) + ",\"l\":" + label_json(lbl, enc, len) + "}");
+                if (lbl) gr_label_destroy(lbl);
+                break; }
+            case 17: {      // label of a feature looked up by id (reaches hidden features, which gr_face_fref does not enumerate)
+                uint32_t id = rd.u32(); int setting = int16_t(rd.u16()); uint16_t lang = rd.u16(); int enc = rd.u8();
+                const gr_feature_ref *fr = gr_face_find_fref(face, id);
                 if (!fr || (enc != 1 && enc != 2 && enc != 4)) { emit("null"); break; }
                 uint32_t len = 0; uint16_t l = lang;
                 void *lbl = setting < 0 ? gr_fref_label(fr, &l, gr_encform(enc), &len) : gr_fref_value_label(fr, uint16_t(setting), &l, gr_encform(enc), &len);
